@@ -20,7 +20,7 @@ ASSUMPTIONS = [
     "PENDULUM_EXTENSIONS=0; the compiled parser is cross-run concretely on every explored path's model",
 ]
 OUTSIDE = ["the Rust duration parser (text loop, f64): concrete cross-run only", "numbers longer than the stated digit counts",
-           "fractions on W/D/H/M other than 1-3 digits (exact) and 8-10 digits (one-digit whole part; rounded to the "
+           "fractions on W/D/H/M other than 1-3 digits (exact) and 5, 7-10 digits (4-10 thorough; one-digit whole part; rounded to the "
            "nearest microsecond, an exact tie may go either way) -- seconds fractions are covered to 9 digits"]
 REACH = ["fraction on days", "fraction on seconds beyond microseconds", "all components present", "weeks form",
          "rejected out of order", "too large rejected"]
@@ -224,7 +224,11 @@ def cases(tier):
     add("H", "H", 10, ".", nd_=1)
     add("D", "D", 10, ".", nd_=1)
     add("W", "W", 10, ".", nd_=1)
-    add("Hm", "m", 9, ",", nd_=1)
+    add("Hm", "m", 8, ",", nd_=1)
+    for on in ("m", "H", "D", "W"):                 # the widths in between: every non-tie rounds to the nearest microsecond
+        for nf in ((5, 7) if tier == "quick" else (4, 5, 6, 7, 9)):
+            if not (on == "m" and nf >= 9):      # k * 0.06 us can be an exact tie, where the float model cannot predict the side
+                add(on, on, nf, ".", nd_=1)
     for tmpl, why in (("P#D#M", "out of order"), ("PT#S#M", "out of order"), ("PT#M#H", "out of order"), ("P#.#Y", "fractional years"),
                       ("P#.#M", "fractional months"), ("P###########D", "too large"), ("PT##############S", "too large")):
         out.append(dict(name=f"rejected {tmpl}", fn=rejected, params=dict(text_tmpl=tmpl, why=why),
